@@ -53,3 +53,8 @@ package actionlint
 //@   props C18
 //@   anchor
 //@   ensures n.ID.Value != "" ==> rule.nodes.has(lower(n.ID.Value)) && rule.nodes[lower(n.ID.Value)].pos == n.ID.Pos
+
+// every resolved dependency of the node is examined unless a cycle was found (return): no break
+//@ func collectCycle
+//@   loop "range src.resolved":
+//@     no_break
